@@ -383,14 +383,18 @@ fn round_default_is_nearest_integer() {
 // ---------------------------------------------------------------------------------------------
 // default
 
-/// (value, is it undefined, is it truthy by the documented table) for every scalar kind; built
-/// one kind at a time so the discriminant is concrete where the filter drops a Value
-macro_rules! for_each_scalar {
+/// (value, is it undefined, is it truthy by the documented table); built one kind at a time so
+/// the discriminant is concrete where the filter drops a Value
+macro_rules! for_each_non_number {
     ($go:ident) => {
         $go!(Value::undefined(), true, false);
         $go!(Value::none(), false, false);
         let b: bool = kani::any();
         $go!(Value::from(b), false, b);
+    };
+}
+macro_rules! for_each_number {
+    ($go:ident) => {
         let x: u64 = kani::any();
         $go!(Value::from(x), false, x != 0);
         let x: i64 = kani::any();
@@ -400,80 +404,72 @@ macro_rules! for_each_scalar {
     };
 }
 
-// killed by: `ValueKind::Undefined | ValueKind::None => Ok(default_val)`; `_ => Ok(default_val)`
-#[kani::proof]
-#[kani::unwind(2)]
-#[kani::stub(std::hash::RandomState::new, fixed_state)]
-#[kani::stub(crate::args::Kwargs::get, kwargs_get_model)]
-fn default_replaces_only_undefined() {
-    let ctx = Context::new();
-    let st = State::new(&ctx);
-    let m: u64 = kani::any();
-    let marker = Value::from(m);
-    set_kwargs(("value", Value::from(m)), None);
-    let kw = Kwargs::default();
-    macro_rules! go {
-        ($v:expr, $undef:expr, $truthy:expr) => {{
-            let v: Value = $v;
-            let r = default(v.clone(), kw.clone(), &st);
-            assert!(matches!(&r, Ok(got) if same_scalar(got, if $undef { &marker } else { &v })));
-            std::mem::forget(r);
-            std::mem::forget(v);
-        }};
-    }
-    for_each_scalar!(go);
-    std::mem::forget((kw, st));
-    std::mem::forget(ctx);
+macro_rules! default_harness {
+    ($name:ident, $each:ident, $boolean:expr, $by_truthiness:literal) => {
+        #[kani::proof]
+        #[kani::unwind(2)]
+        #[kani::stub(std::hash::RandomState::new, fixed_state)]
+        #[kani::stub(crate::args::Kwargs::get, kwargs_get_model)]
+        fn $name() {
+            let ctx = Context::new();
+            let st = State::new(&ctx);
+            let m: u64 = kani::any();
+            let marker = Value::from(m);
+            let boolean: Option<bool> = $boolean;
+            set_kwargs(("value", Value::from(m)), boolean.map(|b| ("boolean", Value::from(b))));
+            let kw = Kwargs::default();
+            macro_rules! go {
+                ($v:expr, $undef:expr, $truthy:expr) => {{
+                    let v: Value = $v;
+                    let replaced: bool = if $by_truthiness { !$truthy } else { $undef };
+                    let r = default(v.clone(), kw.clone(), &st);
+                    assert!(matches!(&r, Ok(got) if same_scalar(got, if replaced { &marker } else { &v })));
+                    std::mem::forget(r);
+                    std::mem::forget(v);
+                }};
+            }
+            $each!(go);
+            std::mem::forget((kw, st));
+            std::mem::forget(ctx);
+        }
+    };
 }
 
-// killed by: `if val.is_truthy() { Ok(default_val) } else { Ok(val) }`; ignoring `boolean`
-#[kani::proof]
-#[kani::unwind(2)]
-#[kani::stub(std::hash::RandomState::new, fixed_state)]
-#[kani::stub(crate::args::Kwargs::get, kwargs_get_model)]
-fn default_boolean_replaces_falsy() {
-    let ctx = Context::new();
-    let st = State::new(&ctx);
-    let m: u64 = kani::any();
-    let marker = Value::from(m);
-    set_kwargs(("value", Value::from(m)), Some(("boolean", Value::from(true))));
-    let kw = Kwargs::default();
-    macro_rules! go {
-        ($v:expr, $undef:expr, $truthy:expr) => {{
-            let v: Value = $v;
-            let r = default(v.clone(), kw.clone(), &st);
-            assert!(matches!(&r, Ok(got) if same_scalar(got, if $truthy { &v } else { &marker })));
-            std::mem::forget(r);
-            std::mem::forget(v);
-        }};
-    }
-    for_each_scalar!(go);
-    std::mem::forget((kw, st));
-    std::mem::forget(ctx);
-}
-
+// default(value=m): only undefined is replaced (none, false, 0, 0.0 are kept)
+// killed by: `ValueKind::Undefined | ValueKind::None => Ok(default_val)`
+default_harness!(default_replaces_only_undefined, for_each_non_number, None, false);
+// killed by: `_ => Ok(default_val)` in the non-boolean arm
+default_harness!(default_keeps_numbers, for_each_number, None, false);
+// default(value=m, boolean=true): falsy values are replaced, truthy ones kept
+// killed by: `if val.is_truthy() { Ok(default_val) } else { Ok(val) }`
+default_harness!(default_boolean_replaces_falsy_non_numbers, for_each_non_number, Some(true), true);
+default_harness!(default_boolean_replaces_falsy_numbers, for_each_number, Some(true), true);
+// default(value=m, boolean=false) is default(value=m)
 // killed by: `let boolean = kwargs.get::<bool>("boolean")?.is_some()`
+default_harness!(default_boolean_false_is_plain, for_each_non_number, Some(false), false);
+
+// ---------------------------------------------------------------------------------------------
+// capitalize on a string whose FIRST character is multi-byte: no panic (no byte-index slicing
+// inside a character), result not empty.  (UTF-8 validity of the result is its type, String,
+// as long as the function has no unsafe code: it has none.)
+// killed by: `val[..1].to_uppercase() + &val[1..].to_lowercase()` (byte slicing)
 #[kani::proof]
-#[kani::unwind(2)]
+#[kani::unwind(14)]
 #[kani::stub(std::hash::RandomState::new, fixed_state)]
-#[kani::stub(crate::args::Kwargs::get, kwargs_get_model)]
-fn default_boolean_false_is_plain() {
-    let ctx = Context::new();
-    let st = State::new(&ctx);
-    let m: u64 = kani::any();
-    let marker = Value::from(m);
-    set_kwargs(("value", Value::from(m)), Some(("boolean", Value::from(false))));
-    let kw = Kwargs::default();
-    macro_rules! go {
-        ($v:expr, $undef:expr, $truthy:expr) => {{
-            let v: Value = $v;
-            let r = default(v.clone(), kw.clone(), &st);
-            assert!(matches!(&r, Ok(got) if same_scalar(got, if $undef { &marker } else { &v })));
-            std::mem::forget(r);
-            std::mem::forget(v);
-        }};
-    }
-    for_each_scalar!(go);
-    std::mem::forget((kw, st));
+fn capitalize_multibyte_first_char() {
+    env!(ctx, st, kw);
+    // 2-, 3- and 4-byte first characters, alone or followed by one ASCII byte (<= 4 bytes)
+    let which: u8 = kani::any();
+    let s: &str = match which {
+        0 => "\u{e9}",
+        1 => "\u{e9}A",
+        2 => "\u{20ac}",
+        3 => "\u{20ac}z",
+        _ => "\u{1f600}",
+    };
+    let out = capitalize(s, kw, &st);
+    assert!(!out.is_empty());
+    assert!(out.len() >= s.len() - 1);
+    std::mem::forget((out, st));
     std::mem::forget(ctx);
 }
